@@ -18,11 +18,13 @@ def run(ctx):
                 "ticker flushes within T + 1.5 s")
     ctx.assumptions += [
         "we read 'takes effect' as the pump's next evaluation of IsReadyForMessages: between a RDY decrease / CLS / pause and "
-        "that evaluation at most ONE message can still be received (overshoot_le_one, C03Pump.one_recv_per_guard; replayed "
-        "with hook proto.pump.afterGuard as an observation); the atomic-model theorems treat guard evaluation and send as one step",
+        "that evaluation at most ONE message can still be received (history level: C03Guard.every_delivery_has_its_guard / "
+        "deliveries_le_guards over guard | deliverArmed op lists; overshoot_le_one and C03Pump.one_recv_per_guard are step-level facts only; "
+        "replayed with hook proto.pump.afterGuard as an observation); the atomic-model theorems treat guard evaluation and send as one step",
         "C03Pump (output buffer): 'flushed by the next flusher tick' needs a running ticker (output_buffer_timeout not "
         "disabled by the client); with it disabled a buffered message waits for the next forced flush / response / heartbeat "
-        "(flushed_by_next_tick states both); the ticker's period itself is wall-clock (oracle pump-late-flush: T + 1.5 s)",
+        "(flushed_by_next_tick states both, for a reachable pump state that has not exited); C03PumpBytes' transfer of these statements to a "
+        "bounded bufio.Writer is by inspection (frameRun is a standalone fold, not proved equal to Model.Pump's output side); the ticker's period itself is wall-clock (oracle pump-late-flush: T + 1.5 s)",
         "rdy_range_full: max-rdy-count < 2^63 (an int64 option); it is about the local helper countOfValue — the statement "
         "over the bytes on the wire, on a model compared with the real RDY handler, is C03RdyBytes.rdy_range_bytes (audit A9)",
         "0 <= max-rdy-count",
